@@ -250,6 +250,9 @@ var rootCauses = []struct {
 	}},
 }
 
+// filterKnown is switched off by TestReplay, which must see every race.
+var filterKnown = true
+
 func findingID(sig string) string {
 	parts := strings.SplitN(sig, " <-> ", 2)
 	if len(parts) == 2 {
@@ -299,7 +302,7 @@ func check(c Case) *core.Violation {
 	for _, sig := range keys {
 		id := findingID(sig)
 		core.Count("race_reports", 1)
-		if core.IsKnownOpen(id) {
+		if filterKnown && core.IsKnownOpen(id) {
 			core.ExcludedKnown(id)
 			continue
 		}
@@ -377,6 +380,7 @@ func TestProp(t *testing.T) {
 // TestReplay re-runs the case several times: a race needs the right
 // interleaving, so one run proves little.
 func TestReplay(t *testing.T) {
+	filterKnown = false
 	s := spec
 	s.Check = func(c Case) *core.Violation {
 		n := core.EnvInt("VERIF_C32_REPLAY_RUNS", 30)
